@@ -28,6 +28,21 @@ type LoopSpec struct {
 	Name        string    // loops addressed by name (label, or loopname binding) instead of by ordinal
 }
 
+// boundedCheck: a bounded stand-in for code outside the verifier's reach.
+type boundedCheck struct {
+	Label string
+	File  string
+	Test  string
+	Props []string
+}
+
+// leanProof: a Lean file proving the axioms of one label.
+type leanProof struct {
+	Label string
+	File  string
+	Props []string
+}
+
 // LockInv is one clause of a monitor invariant.
 type LockInv struct {
 	Self string
@@ -35,44 +50,44 @@ type LockInv struct {
 }
 
 type Contract struct {
-	Key      string
-	Header   string
-	RecvName string
-	Params   []string
-	Returns  []string
-	Props    []string
-	Requires []*Clause
-	Ensures  []*Clause
-	Effects  []*Clause // ghost definitional effects: assumed at call sites, not verified in the body
-	Modifies []string
-	HasModifies bool
-	Loops    map[int]*LoopSpec
-	NamedLoops map[string]*LoopSpec
-	RangeNames map[string]string // source text of a ranged expression -> loop name (loopname directive)
-	Pure     bool
-	MathInts bool // int/int64 arithmetic treated as mathematical in this function (stated assumption)
-	AcqAssumes []*Clause // assumed at every lock acquisition of the function (stated environment assumption)
-	PureDef  *Clause // explicit definition of a pure function
-	Trusted  bool
-	NoInline bool
-	Refines  string
-	NoSafety bool
-	Auto     bool
-	InlineCalls bool // callers inline the body (generic helpers whose effect depends on the dynamic type of an argument)
-	DecoderFrame bool // frame = syntactic mod-set, except decoder state which changes only at the decoder parameters
-	PerReturn bool // check the ensures clauses at every return statement instead of once at the merged exit
-	AutoInv  *Clause // clause used as invariant of every loop (sweep)
-	CallSites map[string][]*Clause // callee name -> obligations / ghost effects at every call of it inside this function
+	Key          string
+	Header       string
+	RecvName     string
+	Params       []string
+	Returns      []string
+	Props        []string
+	Requires     []*Clause
+	Ensures      []*Clause
+	Effects      []*Clause // ghost definitional effects: assumed at call sites, not verified in the body
+	Modifies     []string
+	HasModifies  bool
+	Loops        map[int]*LoopSpec
+	NamedLoops   map[string]*LoopSpec
+	RangeNames   map[string]string // source text of a ranged expression -> loop name (loopname directive)
+	Pure         bool
+	MathInts     bool      // int/int64 arithmetic treated as mathematical in this function (stated assumption)
+	AcqAssumes   []*Clause // assumed at every lock acquisition of the function (stated environment assumption)
+	PureDef      *Clause   // explicit definition of a pure function
+	Trusted      bool
+	NoInline     bool
+	Refines      string
+	NoSafety     bool
+	Auto         bool
+	InlineCalls  bool                 // callers inline the body (generic helpers whose effect depends on the dynamic type of an argument)
+	DecoderFrame bool                 // frame = syntactic mod-set, except decoder state which changes only at the decoder parameters
+	PerReturn    bool                 // check the ensures clauses at every return statement instead of once at the merged exit
+	AutoInv      *Clause              // clause used as invariant of every loop (sweep)
+	CallSites    map[string][]*Clause // callee name -> obligations / ghost effects at every call of it inside this function
 	CallSiteMods map[string][]string
-	File     string
-	Line     int
+	File         string
+	Line         int
 }
 
 type ChanSpec struct {
-	Key     string // Type.field
-	ElemVar string
-	OnSend  []*Clause // requires/ensures/effect evaluated at send sites with ElemVar bound
-	OnRecv  []*Clause // assumed on receive
+	Key      string // Type.field
+	ElemVar  string
+	OnSend   []*Clause // requires/ensures/effect evaluated at send sites with ElemVar bound
+	OnRecv   []*Clause // assumed on receive
 	Modifies []string
 }
 
@@ -247,6 +262,26 @@ func (p *Prog) loadContractFile(path string) error {
 				fields = append(fields, strings.TrimSpace(f))
 			}
 			p.guardedBy[prefix+m[1]] = fields
+			continue
+		}
+		if strings.HasPrefix(line, "bounded[") {
+			// bounded[label] <test file relative to the verification directory> <TestName> props Cxx ...:
+			// a bounded stand-in (NOT a proof) run on the real code through go test -overlay
+			m := regexp.MustCompile(`^bounded\[(\w+)\]\s+(\S+)\s+(\w+)\s+props\s+(.*)$`).FindStringSubmatch(line)
+			if m == nil {
+				return fmt.Errorf("%s:%d: bad bounded directive", path, lineNo)
+			}
+			p.boundedChecks = append(p.boundedChecks, boundedCheck{Label: m[1], File: m[2], Test: m[3], Props: strings.Fields(m[4])})
+			continue
+		}
+		if strings.HasPrefix(line, "lean[") {
+			// lean[label] <file relative to the verification directory> props Cxx ...: the axioms labelled
+			// <label> are theorems of that Lean file, which the check compiles with lean (Lean 4 + Mathlib)
+			m := regexp.MustCompile(`^lean\[(\w+)\]\s+(\S+)\s+props\s+(.*)$`).FindStringSubmatch(line)
+			if m == nil {
+				return fmt.Errorf("%s:%d: bad lean directive", path, lineNo)
+			}
+			p.leanProofs = append(p.leanProofs, leanProof{Label: m[1], File: m[2], Props: strings.Fields(m[3])})
 			continue
 		}
 		if strings.HasPrefix(line, "lockinv") {
